@@ -1,17 +1,18 @@
-import PydraModel.Roundtrip.Lemmas2
+import PydraModel.Roundtrip.ArgvView
 /-
 C32 — Task definitions survive dictionary round trips.
 
 Property theorems only.  Model: `Roundtrip/Model.lean` (`unstructure`, `structure`, `filter_out_defaults`, the parts
 of `define` that `structure` goes through); class defaults: `Gen/FieldDefaults.lean`, regenerated from the interpreter.
+`structureDict` is the code after the repair of D54 (a pure function of the dictionary); `structureDictShallow` is the
+former shallow-copy behaviour, kept for the record.
 -/
 namespace PydraModel.Roundtrip
 
-/-- The property at full strength: every definition produced by `define` comes back unchanged, and the dictionary
-    can be used again.  The pinned code violates both halves (`C32_witness_requires`, `C32_python_dict_consumed`). -/
+/-- The property at full strength: every definition produced by `define` comes back unchanged.  The pinned code
+    violates it for definitions with requirement sets (`C32_witness_requires`, D53). -/
 def C32_full_statement : Prop :=
-  ∀ d : Def, DefWF d →
-    ∃ dct', structureDict (unstructureDef d) = .ok (d, dct') ∧ (structureDict dct').map Prod.fst = .ok d
+  ∀ d : Def, DefWF d → structureDict (unstructureDef d) = .ok d
 
 /-- Base case, closed by `decide` on the regenerated table: the attribute names of each field class are distinct
     (so "look the attribute up, else take the class default" finds the right value). -/
@@ -48,51 +49,81 @@ theorem C32_value_survives_iff (v : Val) :
     deser (ser v) = v ↔ ∀ r, v = .reqs r → ∀ rs ∈ r, rs = [] ∨ rs = [("requirements", Option.none)] :=
   deser_ser_iff v
 
-/-- `structure` on a dictionary whose entries all convert, whose inputs are positioned and whose references exist -/
-theorem structureDict_ok (dct : Dict) (ins outs : List Field)
+/-- `structure` on a dictionary whose entries all convert and whose inputs and outargs are positioned: it checks the
+    references and returns the converted fields -/
+theorem structureDict_eval (dct : Dict) (ins outs : List Field)
     (h0 : (dct.inputs.map (·.1)).contains "function" = false)
     (h1 : mapE (fun ne => entryField (argTable dct.flavor) ne.1 ne.2) dct.inputs = .ok ins)
-    (h2 : mapE (fun ne => entryField (outTable dct.flavor) ne.1 ne.2) dct.outputs = .ok outs)
-    (hpos : dct.flavor = .shell → assignPositions ins = ins)
-    (hrefs : refsOK dct.flavor ins outs dct.xor = true) :
-    (structureDict dct).map Prod.fst =
-      .ok { flavor := dct.flavor, name := dct.name, executor := dct.executor, inputs := ins, outputs := outs,
-            xor := dct.xor } := by
+    (h2 : mapE (fun ne => outEntryField dct.flavor ne.1 ne.2) dct.outputs = .ok outs)
+    (hpos : dct.flavor = .shell → ∀ f ∈ ins ++ outs.filter Field.isOutarg, f.get "position" ≠ .none) :
+    structureDict dct =
+      if refsOK dct.flavor ins outs dct.xor = true then
+        .ok { flavor := dct.flavor, name := dct.name, executor := dct.executor, inputs := ins, outputs := outs,
+              xor := dct.xor }
+      else .error .unrecognisedRef := by
   unfold structureDict
   have hn' : ¬ (dct.flavor = .python ∧ (dct.inputs.map (·.1)).contains "function" = true) := by
     rw [h0]; simp
   rw [if_neg hn']
   simp only [h1, h2]
+  have htake : (ins ++ outs.filter Field.isOutarg).take ins.length = ins := by simp
+  have hdrop : (ins ++ outs.filter Field.isOutarg).drop ins.length = outs.filter Field.isOutarg := by simp
   cases hf : dct.flavor with
-  | python =>
-    rw [hf] at hrefs
-    simp only [hrefs, if_true, Except.map]
-  | shell =>
-    rw [hf] at hrefs
-    simp only [hpos hf, hrefs, if_true, Except.map]
+  | python => simp only [htake, hdrop, mergeOutargs_self]
+  | shell => simp only [assignPositions_id _ (hpos hf), htake, hdrop, mergeOutargs_self]
 
-/-- PARTIAL (hypothesis `SerOKDef`, decidable: no field has a requirement set that the dictionary form mangles).
-    For every definition with any number of input and output fields: `structure (unstructure d)` is `d`. -/
-theorem C32_roundtrip_partial (d : Def) (hwf : DefWF d) (hser : SerOKDef d) :
-    (structureDict (unstructureDef d)).map Prod.fst = .ok d := by
+/-- Without any assumption on the values: for every well-formed definition, `structure (unstructure d)` either is
+    refused by the reference check or returns `roundDef d` — the definition with every non-default attribute sent
+    through the dictionary form. -/
+theorem C32_roundtrip_general (d : Def) (hwf : DefWF d) :
+    structureDict (unstructureDef d) =
+      if refsOK d.flavor (roundDef d).inputs (roundDef d).outputs d.xor = true then .ok (roundDef d)
+      else .error .unrecognisedRef := by
   have hT := C32_defaults_table_ok
-  obtain ⟨hin, hout, hrefs, hpos, hfn⟩ := hwf
-  have h1 := mapE_roundtrip (argTable d.flavor) (hT.arg d.flavor) d.inputs hin
-    (fun f hf => hser f (by simp [hf]))
-  have h2 := mapE_roundtrip (outTable d.flavor) (hT.out d.flavor) d.outputs hout
-    (fun f hf => hser f (by simp [hf]))
+  obtain ⟨hin, hout, htpl, _, hpos, hfn, hro⟩ := hwf
+  have h1 := mapE_inputs_gen (argTable d.flavor) (hT.arg d.flavor) d.inputs hin
+  have h2 := mapE_outputs_gen hT d.flavor d.outputs hout htpl
   have hn : ((unstructureDef d).inputs.map (·.1)).contains "function" = false := by
     rw [unstructure_names]; exact hfn
-  have hpos' : (unstructureDef d).flavor = .shell → assignPositions d.inputs = d.inputs :=
-    fun hf => assignPositions_id d.inputs (hpos hf)
-  have := structureDict_ok (unstructureDef d) d.inputs d.outputs hn h1 h2 hpos' hrefs
-  rw [this]
-  cases d; rfl
+  have hpos' : (unstructureDef d).flavor = .shell →
+      ∀ f ∈ d.inputs.map (roundField (argTable d.flavor)) ++
+            (d.outputs.map (fun f => roundField (outTableFor d.flavor f.isOutarg) f)).filter Field.isOutarg,
+        f.get "position" ≠ .none := by
+    intro hf f hmem
+    rw [filter_isOutarg_round] at hmem
+    rcases List.mem_append.mp hmem with hm | hm
+    · obtain ⟨g, hg, rfl⟩ := List.mem_map.mp hm
+      rw [roundField_get _ g (hro g (by simp [hg])) "position" (by decide)]
+      exact hpos hf g (by simp [hg])
+    · obtain ⟨g, hg, rfl⟩ := List.mem_map.mp hm
+      have hg' := (List.mem_filter.mp hg).1
+      rw [roundField_get _ g (hro g (by simp [hg'])) "position" (by decide)]
+      exact hpos hf g (List.mem_append.mpr (Or.inr hg))
+  exact structureDict_eval (unstructureDef d) _ _ hn h1 h2 hpos'
+
+theorem roundDef_of_serOK (d : Def) (hser : SerOKDef d) : roundDef d = d := by
+  unfold roundDef
+  have h1 : d.inputs.map (roundField (argTable d.flavor)) = d.inputs := by
+    rw [map_eq_self_iff]
+    intro f hf
+    exact roundField_of_serOK _ f (hser f (by simp [hf]))
+  have h2 : d.outputs.map (fun f => roundField (outTableFor d.flavor f.isOutarg) f) = d.outputs := by
+    rw [map_eq_self_iff]
+    intro f hf
+    exact roundField_of_serOK _ f (hser f (by simp [hf]))
+  rw [h1, h2]
+
+/-- PARTIAL (hypothesis `SerOKDef`, decidable: no field has a requirement set that the dictionary form mangles).
+    For every definition with any number of input and output fields (outargs included): `structure (unstructure d)` is `d`. -/
+theorem C32_roundtrip_partial (d : Def) (hwf : DefWF d) (hser : SerOKDef d) :
+    structureDict (unstructureDef d) = .ok d := by
+  rw [C32_roundtrip_general d hwf, roundDef_of_serOK d hser]
+  simp [hwf.2.2.2.1]
 
 /-- in particular: definitions whose fields have no requirements at all -/
 theorem C32_roundtrip_no_requires (d : Def) (hwf : DefWF d)
     (hno : ∀ f ∈ d.inputs ++ d.outputs, ∀ kv ∈ f.attrs, ∀ r, kv.2 = .reqs r → r = []) :
-    (structureDict (unstructureDef d)).map Prod.fst = .ok d := by
+    structureDict (unstructureDef d) = .ok d := by
   apply C32_roundtrip_partial d hwf
   intro f hf kv hkv
   rw [deser_ser_iff]
@@ -101,62 +132,92 @@ theorem C32_roundtrip_no_requires (d : Def) (hwf : DefWF d)
   subst this
   simp at hrs
 
-/-- Corollary: whatever is computed from the definition — the command line of a shell task for given inputs, the
-    rule check — is the same for the round-tripped definition. -/
+/-- Corollary: whatever is computed from the definition is the same for the round-tripped definition. -/
 theorem C32_observations_preserved {β} (obs : Def → β) (d : Def) (hwf : DefWF d) (hser : SerOKDef d) :
-    (structureDict (unstructureDef d)).map (fun r => obs r.1) = .ok (obs d) := by
-  have := C32_roundtrip_partial d hwf hser
-  cases h : structureDict (unstructureDef d) with
-  | error e => rw [h] at this; simp [Except.map] at this
-  | ok r =>
-    rw [h] at this
-    simp only [Except.map, Except.ok.injEq] at this
-    simp [Except.map, this]
+    (structureDict (unstructureDef d)).map obs = .ok (obs d) := by
+  rw [C32_roundtrip_partial d hwf hser]; rfl
 
 /-- …instantiated with the rule check of engine `Rules` (C31): same violations for every assignment -/
 theorem C32_rules_preserved (d : Def) (hwf : DefWF d) (hser : SerOKDef d) (a : Rules.Assignment) :
-    (structureDict (unstructureDef d)).map (fun r => Rules.ruleViolations (toRules r.1) a)
+    (structureDict (unstructureDef d)).map (fun r => Rules.ruleViolations (toRules r) a)
       = .ok (Rules.ruleViolations (toRules d) a) :=
   C32_observations_preserved (fun d => Rules.ruleViolations (toRules d) a) d hwf hser
 
-/-- `shell.define` leaves the dictionary alone: it can be structured again, with the same result -/
-theorem C32_shell_dict_reusable (dct : Dict) (hfl : dct.flavor = .shell) (d : Def) (dct' : Dict)
-    (h : structureDict dct = .ok (d, dct')) : dct' = dct ∧ structureDict dct' = .ok (d, dct') := by
-  have hd : dct' = dct := by
-    unfold structureDict at h
-    simp only [hfl] at h
-    split at h
-    · simp at h
-    · split at h
-      · simp at h
-      · split at h
-        · simp at h
-        · split at h
-          · simp only [Except.ok.injEq, Prod.mk.injEq] at h
-            exact h.2.symm
-          · simp at h
-  exact ⟨hd, by rw [hd]; rw [hd] at h; exact h⟩
+/-- The command line is preserved (engine `Argv`, C22's `commandArgs`, through the view `Roundtrip/ArgvView.lean`):
+    for every assignment of values to the fields and every `append_args`, the recreated definition builds the same
+    argument vector (or fails in the same way) as the original. -/
+theorem C32_cmdline_preserved (d : Def) (hwf : DefWF d) (hser : SerOKDef d)
+    (vals : String → Argv.Value) (app : List Argv.Str) :
+    (structureDict (unstructureDef d)).map (fun r => commandArgsOf r vals app) = .ok (commandArgsOf d vals app) :=
+  C32_observations_preserved (fun d => commandArgsOf d vals app) d hwf hser
 
-/-- D54, for every python definition: `structure` leaves the `function` field in the caller's dictionary, and a second
-    `structure` of that dictionary is refused. -/
-theorem C32_python_dict_consumed (dct : Dict) (hfl : dct.flavor = .python) (d : Def) (dct' : Dict)
-    (h : structureDict dct = .ok (d, dct')) : structureDict dct' = .error .unrecognisedInput := by
+/-- What D53 can change is exactly `requires`: whenever `structure (unstructure d)` returns at all — also outside
+    `SerOKDef` — the result is `roundDef d`, which has the same flavour, name, executor, groups, field names and
+    attribute names, and the same value of every attribute other than `requires`. -/
+theorem C32_only_requires_can_change (d d' : Def) (hwf : DefWF d)
+    (h : structureDict (unstructureDef d) = .ok d') :
+    d' = roundDef d ∧ d'.flavor = d.flavor ∧ d'.name = d.name ∧ d'.executor = d.executor ∧ d'.xor = d.xor ∧
+    d'.inputs.map (·.name) = d.inputs.map (·.name) ∧ d'.outputs.map (·.name) = d.outputs.map (·.name) ∧
+    (∀ T f, f ∈ d.inputs ++ d.outputs → ∀ k, k ≠ "requires" → (roundField T f).get k = f.get k) := by
+  have hg := C32_roundtrip_general d hwf
+  rw [h] at hg
+  have hd : d' = roundDef d := by
+    by_cases hr : refsOK d.flavor (roundDef d).inputs (roundDef d).outputs d.xor = true
+    · simp only [hr, if_true, Except.ok.injEq] at hg; exact hg
+    · simp only [hr] at hg; cases hg
+  subst hd
+  refine ⟨rfl, rfl, rfl, rfl, rfl, ?_, ?_, ?_⟩
+  · simp [roundDef, List.map_map, Function.comp_def, roundField_name]
+  · simp [roundDef, List.map_map, Function.comp_def, roundField_name]
+  · intro T f hf k hk
+    exact roundField_get T f (hwf.2.2.2.2.2.2 f hf) k hk
+
+/-- …hence the command line survives D53 too: whenever `structure (unstructure d)` returns a definition, it builds
+    the same argument vector as the original for all values (only the rule check can differ). -/
+theorem C32_cmdline_preserved_whenever_structured (d d' : Def) (hwf : DefWF d)
+    (h : structureDict (unstructureDef d) = .ok d')
+    (vals : String → Argv.Value) (app : List Argv.Str) :
+    commandArgsOf d' vals app = commandArgsOf d vals app := by
+  rw [(C32_only_requires_can_change d d' hwf h).1]
+  exact commandArgsOf_roundDef d hwf.2.2.2.2.2.2 vals app
+
+/-! ## The dictionary is not state (repair of D54) — and what the shallow copy used to do -/
+
+/-- Regression statement for the repaired code: a dictionary can be structured any number of times; on the dictionary
+    of a definition whose values survive, every call returns that definition. -/
+theorem C32_dict_reusable (d : Def) (hwf : DefWF d) (hser : SerOKDef d) :
+    let dct := unstructureDef d
+    structureDict dct = .ok d ∧ (structureDict dct).bind (fun _ => structureDict dct) = .ok d := by
+  have h := C32_roundtrip_partial d hwf hser
+  simp only [h]
+  exact ⟨trivial, rfl⟩
+
+/-- Before the repair (`copy`, not `deepcopy`), for every python definition: `structure` left the `function` field in
+    the caller's dictionary, and a second `structure` of that dictionary was refused.  Documentation of D54. -/
+theorem C32_old_shallow_python_dict_consumed (dct : Dict) (hfl : dct.flavor = .python) (d : Def) (dct' : Dict)
+    (h : structureDictShallow dct = .ok (d, dct')) : structureDict dct' = .error .unrecognisedInput := by
   have hd : dct'.flavor = .python ∧ (dct'.inputs.map (·.1)).contains "function" = true := by
-    unfold structureDict at h
-    simp only [hfl] at h
-    split at h
-    · simp at h
-    · split at h
-      · simp at h
-      · split at h
-        · simp at h
-        · split at h
-          · simp only [Except.ok.injEq, Prod.mk.injEq] at h
-            rw [← h.2]
-            simp [pythonLeftovers, hfl]
-          · simp at h
+    unfold structureDictShallow at h
+    cases hs : structureDict dct with
+    | error e => rw [hs] at h; simp [Except.map] at h
+    | ok d0 =>
+      rw [hs] at h
+      simp only [Except.map, hfl, Except.ok.injEq, Prod.mk.injEq] at h
+      rw [← h.2]
+      simp [pythonLeftovers, hfl]
   unfold structureDict
   rw [if_pos ⟨hd.1, hd.2⟩]
+
+/-- …while a shell dictionary was left alone even then -/
+theorem C32_old_shallow_shell_dict_kept (dct : Dict) (hfl : dct.flavor = .shell) (d : Def) (dct' : Dict)
+    (h : structureDictShallow dct = .ok (d, dct')) : dct' = dct := by
+  unfold structureDictShallow at h
+  cases hs : structureDict dct with
+  | error e => rw [hs] at h; simp [Except.map] at h
+  | ok d0 =>
+    rw [hs] at h
+    simp only [Except.map, hfl, Except.ok.injEq, Prod.mk.injEq] at h
+    exact h.2.symm
 
 /-! ## Witnesses -/
 
@@ -193,12 +254,12 @@ theorem C32_witness_requires_silent :
     DefWF wReqSilentDef ∧
     Rules.ruleViolations (toRules wReqSilentDef) wAsg = [] ∧
     (structureDict (unstructureDef wReqSilentDef)).map
-        (fun r => (decide (r.1 = wReqSilentDef), Rules.ruleViolations (toRules r.1) wAsg))
+        (fun r => (decide (r = wReqSilentDef), Rules.ruleViolations (toRules r) wAsg))
       = .ok (false, [.requires "a"]) := by
   decide +kernel
 
-/-- D54 on a concrete python definition: the first `structure` succeeds and gives the definition back, the second
-    one on the same dictionary is refused. -/
+/-- A concrete python definition (regression case of D54): with the repaired `structure` the dictionary gives the
+    definition back as often as it is used; with the former shallow copy the second use was refused. -/
 def wPyDef : Def :=
   { flavor := .python, name := "P", executor := .atom "fn:mod.P",
     inputs := [mkArg .python "a" [("type", tStr), ("default", .none)],
@@ -207,14 +268,15 @@ def wPyDef : Def :=
 
 theorem C32_witness_python_twice :
     DefWF wPyDef ∧ SerOKDef wPyDef ∧
-    (structureDict (unstructureDef wPyDef)).map Prod.fst = .ok wPyDef ∧
-    ((structureDict (unstructureDef wPyDef)).bind (fun r => structureDict r.2)) = .error .unrecognisedInput := by
+    structureDict (unstructureDef wPyDef) = .ok wPyDef ∧
+    ((structureDict (unstructureDef wPyDef)).bind (fun _ => structureDict (unstructureDef wPyDef))) = .ok wPyDef ∧
+    ((structureDictShallow (unstructureDef wPyDef)).bind (fun r => structureDict r.2)) = .error .unrecognisedInput := by
   decide +kernel
 
 /-- The property as worded does not hold for the pinned code. -/
 theorem C32_full_statement_fails : ¬ C32_full_statement := by
   intro h
-  obtain ⟨dct', h1, _⟩ := h wReqDef C32_witness_requires.1
+  have h1 := h wReqDef C32_witness_requires.1
   rw [C32_witness_requires.2] at h1
   cases h1
 
